@@ -1837,3 +1837,10 @@ Qed.
 Example af_bind_example :
   let s := run bst bstep (binit 2) [0;0;1;1;0;0;2;2;0]%nat in bfin s = Some 0 /\ bfired s = true /\ all_sealed (btargets s) = true.
 Proof. vm_compute. repeat split; reflexivity. Qed.
+
+(* reset of a dependency that was never activated but whose condition was published (so _established is set): fresh again *)
+Example af_dep_reset_example :
+  let c := {| has_cond := true; holds := true |} in
+  let s := run dst (dstep c) dinit [1;1;1]%nat in
+  est s = true /\ pa s = A0 /\ wn s = -1 /\ dreset s = dinit.
+Proof. vm_compute. repeat split; reflexivity. Qed.
